@@ -76,6 +76,14 @@ class Prop(common.PropertyCheck):
                    'at': rng.choice(['none', 'none', 'given', 'partial']), 'ag': rng.choice(['none', 'none', 'given', 'partial']),
                    'res': rng.choice(['none', 'none', 'given', 'partial']), 'bad': rng.choice([None] * 8 + ['len_at', 'len_ag', 'len_res', 'scalar_at', 'len_all_short', 'len_all_long']),
                    'dt': rng.choice(['I', 'I', 'F'])}
+        # more events than channel values, integer containers, log channels sharing a0 and resolution but not a1 (table-driven implementations)
+        for _ in range(self.budget(10, 120)):
+            yield {'cont': rng.choice(['sample', 'array_int']), 'D': 3, 'N': rng.choice([300, 700, 1100]), 'form': rng.choice(['list', 'none']), 'seed': rng.randrange(1 << 30),
+                   'at': 'given', 'ag': 'none', 'res': 'given', 'bad': None, 'dt': 'I', 'many': True}
+        # samples sliced with a slice object after a by-name query on the parent (stale name tables)
+        for _ in range(self.budget(40, 500)):
+            yield {'cont': 'sample', 'D': rng.randrange(3, 6), 'N': rng.choice([1, 7]), 'form': rng.choice(['scalar', 'list', 'list']), 'seed': rng.randrange(1 << 30),
+                   'at': rng.choice(['none', 'none', 'partial']), 'ag': 'none', 'res': 'none', 'bad': None, 'dt': 'I', 'presl': rng.choice(['tail', 'rev', 'mid'])}
         for _ in range(self.budget(1, 5)):
             yield {'k': 'big', 'n': (1 << 20) * rng.choice([1, 2]) + rng.randrange(1, 5000), 'seed': rng.randrange(1 << 30)}
 
@@ -100,7 +108,8 @@ class Prop(common.PropertyCheck):
         r = random.Random(case['seed'])
         D, N = case['D'], case['N']
         if case['cont'] == 'sample':
-            spec = samples.spec_rich(r, N=N, D=D, datatype=case.get('dt', 'I'))
+            spec = samples.spec_rich(r, N=N, D=D, datatype=case.get('dt', 'I'), res=[256, 256, 1000][:D] if case.get('many') else None,
+                                     log_channels=[0, 1, 2] if case.get('many') else None)
             d, _ = samples.load(spec, name='c03.fcs')
             names = list(d.channels)
             # the settings as the file records them (independent of the loader)
@@ -114,8 +123,16 @@ class Prop(common.PropertyCheck):
                 g = ex.get('$P%dG' % (c + 1))
                 fg.append(None if g is None else bits(float(g)))
             self._file_meta = {'ampType': fat, 'gain': fg, 'res': [bits(float(x)) for x in spec['ranges']]}
+            if case.get('presl'):
+                d.amplification_type(names[1]); d.range(names[-1])            # by-name queries on the parent
+                sl = {'tail': slice(1, None), 'rev': slice(None, None, -1), 'mid': slice(1, D - 0 if D < 4 else D - 1)}[case['presl']]
+                d = d[:, sl]
+                names = list(d.channels)
+                self._file_meta = {k: v[sl] for k, v in self._file_meta.items()}
+                D = d.shape[1]
         else:
-            d = np.array([[r.randrange(0, 1024) for _ in range(D)] for _ in range(N)], dtype=np.float64).reshape(N, D)
+            d = np.array([[r.randrange(0, 256 if case.get('many') else 1024) for _ in range(D)] for _ in range(N)],
+                         dtype=np.int64 if case['cont'] == 'array_int' else np.float64).reshape(N, D)
             names = None
             self._file_meta = None
         form = case['form']
@@ -140,16 +157,21 @@ class Prop(common.PropertyCheck):
             if kind == 'given':
                 return [gen() for _ in range(n)]
             return [gen() if r.random() < 0.5 else None for _ in range(n)]
-        at = settings(case['at'], lambda: r.choice([(0, 0), (0., 0.), (4, 1), (4.5, 0.5), (3, 1), (2, 1), (7.3, 1.), (8, 1)]))
+        if case.get('many'):
+            at = settings('given', lambda: r.choice([(4, 1), (4, 0.01), (4, 10.), (4.5, 1)]))
+            res = settings('given', lambda: 256)
+        else:
+            at = settings(case['at'], lambda: r.choice([(0, 0), (0., 0.), (4, 1), (4.5, 0.5), (3, 1), (2, 1), (7.3, 1.), (8, 1)]))
         ag = settings(case['ag'], lambda: r.choice([0.5, 2., 8., 1.]))
-        res = settings(case['res'], lambda: r.choice([256, 1000, 1024, 4096, 262144]))
+        if not case.get('many'):
+            res = settings(case['res'], lambda: r.choice([256, 1000, 1024, 4096, 262144]))
         if case['cont'] == 'array' and at is None:
             at = settings('given', lambda: r.choice([(0, 0), (4, 1), (3, 1)]))
-        if case['cont'] == 'array' and isinstance(at, list):
+        if case['cont'] in ('array', 'array_int') and isinstance(at, list):
             at = [a if a is not None else (4, 1) for a in at]
             if res is None or (isinstance(res, list) and None in res):
                 res = [1024] * n
-        if case['cont'] == 'array' and form == 'scalar' and res is None:
+        if case['cont'] in ('array', 'array_int') and form == 'scalar' and res is None:
             res = 1024
         bad = case['bad']
         if bad and form != 'scalar':
@@ -180,9 +202,12 @@ class Prop(common.PropertyCheck):
         if case.get('k') == 'big':
             return self.run_big(case)
         d, ch, at, ag, res, names = self.build(case)
-        out = {'meta': meta_of(d), 'in': arr_bits(d), 'in_range': range_bits(d),
-               'args': {'channels': None if ch is None else ({'list': ch} if isinstance(ch, list) else {'scalar': ch}),
-                        'at': self.to_arg(at, 'pair'), 'ag': self.to_arg(ag, 'num'), 'res': self.to_arg(res, 'num')}}
+        try:
+            out = {'meta': meta_of(d), 'in': arr_bits(d), 'in_range': range_bits(d),
+                   'args': {'channels': None if ch is None else ({'list': ch} if isinstance(ch, list) else {'scalar': ch}),
+                            'at': self.to_arg(at, 'pair'), 'ag': self.to_arg(ag, 'num'), 'res': self.to_arg(res, 'num')}}
+        except Exception as e:
+            return {'accessor_err': 'reading the settings of the sample raised %s: %s' % (type(e).__name__, str(e)[:80])}
         out['file_meta'] = self._file_meta
         st0 = fpm.state(d) if names else None
         try:
@@ -266,6 +291,8 @@ class Prop(common.PropertyCheck):
     def oracle(self, case, impl):
         if case.get('k') == 'big':
             return None if impl['big'] is None else 'array of %d events: %s' % (case['n'], impl['big'])
+        if 'accessor_err' in impl:
+            return '%s (sample prepared with %s)' % (impl['accessor_err'], case.get('presl') or 'a plain load')
         bad = case['bad'] if case['form'] != 'scalar' else None
         if bad == 'scalar_at' and case['form'] != 'list':
             bad = None
@@ -312,7 +339,7 @@ class Prop(common.PropertyCheck):
         return None
 
     def model_request(self, case, impl):
-        if case.get('k') == 'big':
+        if case.get('k') == 'big' or 'accessor_err' in impl:
             return None
         a = impl['args']
         if a['at'] is not None and a['at'].get('scalar') == 'bad':
@@ -353,6 +380,8 @@ class Prop(common.PropertyCheck):
     def nontrivial_key(self, case, impl):
         if case.get('k') == 'big':
             return ('big', case['n'] >> 20)
+        if 'accessor_err' in impl:
+            return None
         laws = None
         if 'err' not in impl and not case['bad']:
             try:
